@@ -507,6 +507,8 @@ CONSTANTS
  LedgerFirstOnly = %s
  FlagBeforeGuard = %s
  ProxiesBeforeStops = %s
+ NamespaceKept = FALSE
+ RecordAfterEnd = FALSE
  MaxOps = 1000
 INVARIANT Progress
 POSTCONDITION Report
@@ -524,6 +526,8 @@ CONSTANTS
  LedgerFirstOnly = %s
  FlagBeforeGuard = %s
  ProxiesBeforeStops = %s
+ NamespaceKept = %s
+ RecordAfterEnd = %s
  MaxOps = %d
 INVARIANT Quiescent
 INVARIANT SceneUntouched
@@ -567,15 +571,17 @@ def main(tier):
     ]
     # ---- design level: the specification admits no bad state; the deviations do
     ops = 3 if tier == "quick" else 4
-    res = run_tlc("LifecycleMC", MC_CFG % ("FALSE", "FALSE", "FALSE", ops), timeout=3000, coverage=True)
+    res = run_tlc("LifecycleMC", MC_CFG % ("FALSE", "FALSE", "FALSE", "FALSE", "FALSE", ops), timeout=3000, coverage=True)
     ck.add_tlc("Lifecycle", res)
-    for a in ("Begin", "Create", "StartScenario", "Override", "SimWrite", "StopInnermost", "Fail", "DisableProxies", "EndSimulation"):
+    for a in ("Begin", "Create", "StartScenario", "Override", "SimWrite", "StopInnermost", "Fail", "DisableProxies", "EndSimulation",
+              "CreateGlobal", "RecordSample"):
         if res.coverage.get(a, (0, 0))[1] == 0:
             raise MachineryError(f"Lifecycle action {a} never taken")
     dev = {}
-    for name, first, flag, early in (("LedgerFirstOnly", "TRUE", "FALSE", "FALSE"), ("FlagBeforeGuard", "FALSE", "TRUE", "FALSE"),
-                                     ("ProxiesBeforeStops", "FALSE", "FALSE", "TRUE")):
-        r = run_tlc("LifecycleMC", MC_CFG % (first, flag, early, 3), timeout=3000, expect_fail=True)
+    names = ("LedgerFirstOnly", "FlagBeforeGuard", "ProxiesBeforeStops", "NamespaceKept", "RecordAfterEnd")
+    for name in names:
+        consts = tuple("TRUE" if n == name else "FALSE" for n in names)
+        r = run_tlc("LifecycleMC", MC_CFG % (consts + (3,)), timeout=3000, expect_fail=True)
         dev[name] = r.invariant_violated
         if r.ok:
             raise MachineryError(f"deviation {name} does not violate any property of Lifecycle.tla: the model is too weak")
